@@ -56,6 +56,9 @@ T_RoundTrip ==
              /\ HierSeqToSet(Ev.obs.hier) = ExpectedHier(D)
              /\ KFs({KFName(d) : d \in D})
 
-TNext == T_Fail \/ T_Reset \/ T_Node \/ T_Rel \/ T_Bump \/ T_SetProp \/ T_DelRel \/ T_Compact \/ T_Hier \/ T_HierRefused \/ T_RoundTrip
+\* a scaled family (built by the harness from (kind, n)), exported, imported, abstracted to counts
+T_FamilyRT == IsEv("FamilyRT") /\ OK /\ FamilyOK(Ev.kind, Ev.n, Ev.obs) /\ UNCHANGED G /\ Same
+
+TNext == T_Fail \/ T_Reset \/ T_Node \/ T_Rel \/ T_Bump \/ T_SetProp \/ T_DelRel \/ T_Compact \/ T_Hier \/ T_HierRefused \/ T_RoundTrip \/ T_FamilyRT
 TSpec == TInit /\ [][TNext]_tvars
 =============================================================================
